@@ -130,13 +130,15 @@ func (a *Aggregate) nextLine() (line *line.Line, ok bool, noMoreChannels bool) {
 	select {
 	case line, ok = <-a.linesCh:
 		if !ok {
-			// Channel is closed, go to next channel.
+			// Channel is closed, go to next channel. Find out whether anybody can
+			// still queue another channel before looking at the queue: a channel
+			// queued by a reader which finishes in between would be missed otherwise.
+			mayGetMore := atomic.LoadInt32(&a.requeuing) > 0 ||
+				(a.MoreLinesExpected != nil && a.MoreLinesExpected())
 			select {
 			case a.linesCh = <-a.NextLinesCh:
 			default:
-				// Only done when nobody can queue another channel any more.
-				noMoreChannels = atomic.LoadInt32(&a.requeuing) == 0 &&
-					(a.MoreLinesExpected == nil || !a.MoreLinesExpected())
+				noMoreChannels = !mayGetMore
 			}
 		}
 	default:
